@@ -1,11 +1,12 @@
 package props
 
 import (
-	"math/rand"
+	"context"
 	"encoding/hex"
 	"encoding/json"
 	"flag"
 	"fmt"
+	"math/rand"
 	"os"
 	"sort"
 	"sync"
@@ -143,24 +144,25 @@ func splitLines(b []byte) [][]byte {
 }
 
 type srvRun struct {
-	w        *sim.World
-	cl       map[int]*sim.Client // slot -> client
-	ids      map[int]int         // slot -> user id assigned at login
-	ips      map[int]string
-	chatIdx  map[string]int
-	chatIDs  [][]byte // index-1 -> raw chat id
-	pending  map[int]map[uint32]string // slot -> request id -> op (for reply canonicalisation)
-	settle   map[int]map[uint32]bool
-	doneSeen map[int]bool
-	soon     map[string]time.Time // ip -> planted expiry of a "soon" ban
-	port     int
-	extra    []map[string]any // environment events to log before the current step
-	abort    bool             // stop the script after this step
-	unsettled []int
-	g        *gates
-	points   map[int]*gatePoint
-	loginID  map[int]uint32
-	loginArgs map[int]map[string]any
+	w          *sim.World
+	cl         map[int]*sim.Client // slot -> client
+	ids        map[int]int         // slot -> user id assigned at login
+	ips        map[int]string
+	chatIdx    map[string]int
+	chatIDs    [][]byte                  // index-1 -> raw chat id
+	pending    map[int]map[uint32]string // slot -> request id -> op (for reply canonicalisation)
+	settle     map[int]map[uint32]bool
+	doneSeen   map[int]bool
+	soon       map[string]time.Time // ip -> planted expiry of a "soon" ban
+	port       int
+	extra      []map[string]any // environment events to log before the current step
+	abort      bool             // stop the script after this step
+	unsettled  []int
+	g          *gates
+	points     map[int]*gatePoint
+	idleCancel func()
+	loginID    map[int]uint32
+	loginArgs  map[int]map[string]any
 }
 
 func (r *srvRun) chatOf(b []byte) int {
@@ -219,7 +221,7 @@ func (r *srvRun) canon(slot int, t sim.Tx) map[string]any {
 		}
 		op := r.pending[slot][t.ID]
 		switch op {
-		case "userlist":
+		case "userlist", "wake":
 			m["users"] = parseUsers(t.GetAll(sim.FUsernameWithInfo))
 		case "invitenew", "invite":
 			if b, ok := t.Get(sim.FChatID); ok {
@@ -402,6 +404,9 @@ func runSrvScript(run int, sc srvScript) (evs []map[string]any, err error) {
 		for _, pt := range r.points {
 			pt.open()
 		}
+		if r.idleCancel != nil {
+			r.idleCancel()
+		}
 	}()
 	for _, st := range sc.Steps {
 		ev := map[string]any{}
@@ -564,8 +569,45 @@ func (r *srvRun) step(st map[string]any, ev map[string]any) error {
 			}
 		}
 		r.send(slot, op, sim.TSetClientUserInfo, f...)
-	case "userlist":
+	case "userlist", "wake":
 		r.send(slot, op, sim.TGetUserNameList)
+	case "goneidle":
+		// the idle-time ticker (every 10 s) marks a user away after more than 300 idle seconds: put the user just
+		// below the threshold and wait for the next tick
+		if r.idleCancel == nil {
+			ctx, cancel := context.WithCancel(context.Background())
+			r.idleCancel = cancel
+			go r.w.Srv.VerifKeepaliveHandler(ctx)
+		}
+		if sc := c.ServerConn(); sc != nil {
+			sc.IdleTime = 295
+		}
+		uid := r.ids[slot]
+		if _, err := c.WaitFor(func(t sim.Tx) bool {
+			if t.Type != sim.TNotifyChangeUser {
+				return false
+			}
+			return beOr(t, sim.FUserID, -1) == uid && beOr(t, sim.FUserFlags, 0)&1 == 1
+		}, 12*time.Second); err != nil {
+			ev["noaway"] = true // observed: no away notice within one ticker period
+		} else {
+			// the ticker goroutine tells the users one after the other, outside the request/reply flow that a
+			// keep-alive round trip settles: give the notices to the other users a bounded time to arrive
+			deadline := time.Now().Add(3 * time.Second)
+			for _, o := range r.liveSlots() {
+				oc := r.cl[o]
+				if o == slot || oc == nil {
+					continue
+				}
+				left := time.Until(deadline)
+				if left < 50*time.Millisecond {
+					left = 50 * time.Millisecond
+				}
+				_, _ = oc.WaitFor(func(t sim.Tx) bool {
+					return t.Type == sim.TNotifyChangeUser && beOr(t, sim.FUserID, -1) == uid && beOr(t, sim.FUserFlags, 0)&1 == 1
+				}, left)
+			}
+		}
 	case "close":
 		c.Close()
 		if !c.WaitServerDone(10 * time.Second) {
@@ -716,7 +758,6 @@ func (r *srvRun) banClass(ip string) string {
 		return "past"
 	}
 }
-
 
 type nopConn struct{}
 
